@@ -125,6 +125,28 @@ CHECKS = {
         note='Trusted: own trace.codes parser (vlib/ev.py), sys.monitoring. exhaustive=true refers to the tables, the '
              'twin argument tuples are sampled.',
         technique='exhaustive table audit + sys.monitoring reachability observation + twin differential rendering'),
+    'C11': dict(
+        category='exploration', design_ref='DESIGN.md section 4, C11',
+        text='(1) every flag enum of the handler modules is audited name->value against an independent Darwin reference; '
+             '(2) the real helper functions are driven exhaustively over all subsets of the declared bits x all values '
+             'of the multi-bit fields (open flags, file modes, access, VM protections, AST, thread/sampler/callstack '
+             'state, dlopen modes; 2^16 per family in quick, up to 2^22 in thorough) plus undeclared bits, with a '
+             '"names shown <=> bits set" oracle; (3) the same words go through the real pipeline of every decoder that '
+             'shows them and the names are parsed back from str(trace); (4) ioctl request words must unpack as the '
+             'exact inverse of _IOC.',
+        note='Trusted base: vlib/darwin_ref.py (XNU header constants typed from memory; names it lacks are listed as '
+             'unchecked in the evidence). Access mode 3 (= the O_ACCMODE mask) is not a mode.',
+        technique='exhaustive subset enumeration through the real helpers/pipeline + bits<->names oracle + reference '
+                  'audit of enum values + _IOC inverse oracle'),
+    'C18': dict(
+        category='exploration', design_ref='DESIGN.md section 4, C18',
+        text='Environment fault injection: the same rendering workload runs in subprocesses under three hosts (real '
+             'Linux interpreter, Darwin-shaped and scrambled errno/signal/socket tables, os.strerror, sys.platform, TZ, '
+             'locale substituted before the repository is imported). Outputs must be byte-identical across hosts and '
+             'the names must equal the Darwin reference (every error code 0..134+, every signal, every Darwin address '
+             'family x socket type, option levels, a whole dump through the front-end, log timestamps).',
+        note='Other platforms are modelled by table substitution inside one CPython; trusted base vlib/darwin_ref.py.',
+        technique='host-substitution differential (subprocess per host) + reference-name oracle'),
 }
 
 PENDING_REASON = 'check not yet built in this session (design in DESIGN.md section 4); not claimed until it exists'
